@@ -9,7 +9,7 @@ SIDE_LEMMAS = 2      # GeneratedFacts: client_glue_shape, pool_shape
 ASSUMPTIONS = ["`non-overlapping` is decided on the history: a request is non-overlapping when every earlier request's stream has been completed",
                "the model is tied to client.rs / session_pool.rs by differential execution on the cases counted below (sampling)"]
 Case = Case
-OWN = ("malformed", "handed_closed", "redial", "identity", "bounded", "dials_mismatch")
+OWN = ("malformed", "request_failed", "handed_closed", "redial", "identity", "bounded", "dials_mismatch")
 
 
 def corpus_cases():
